@@ -129,7 +129,7 @@ def build_tools(verbose=False):
             if k:
                 jobs.append((out, k, [CLANG, "-O1", "-w"] + LLVM_CXX + ["-fno-exceptions", src, "-o", out] + LLVM_LD))
 
-        sbv_srcs = [os.path.join(SBV, f) for f in ("sbv.cpp", "sbv_core.h", "sbv_val.h", "sbv.h", "sbv_calls.inc", "sbv_exec.inc", "sbv_main.inc", "sbv_threads.inc")]
+        sbv_srcs = [os.path.join(SBV, f) for f in ("sbv.cpp", "sbv_core.h", "sbv_val.h", "sbv.h", "sbv_calls.inc", "sbv_exec.inc", "sbv_main.inc", "sbv_threads.inc", "sbv_race.inc")]
         out = os.path.join(td, "sbv.o")
         k = need(out, sbv_srcs)
         if k:
